@@ -30,7 +30,12 @@ package rules
 // Robustness pass: the rules see through named locals, index/3-clause loops, named results with
 // bare return, method values, closures and wrappers around ChooseServer ((*Server, bool) included),
 // bounds passed as parameters of unexported helpers, bool helpers such as empty(), functions moved
-// to other files and renamed unexported functions/fields.
+// to other files and renamed unexported functions/fields. Second iteration: the common part held
+// in a named field (`base BaseLoadBalancer`), the policy switch replaced by an immutable table of
+// constructors, constructors inlined into NewLoadBalancer, helpers that receive the list
+// (pickUniform(lb.Servers), pickByWeight(lb.Servers, draw), a method pick(draw)) followed for the
+// element-of, immutability, bound and weighted-selection rules, watchServers split into helpers,
+// the watch goroutine as a method/function started with `go`, nil predicates such as noServer(svr).
 //
 // Tested on the tree this was developed against (scratch worktree @ ce8b88e): exit 1 with
 // exactly one violation,
@@ -93,6 +98,7 @@ import (
 
 	"verif/internal/core"
 	"verif/internal/flow"
+	"verif/internal/load"
 )
 
 const c04pkg = "pkg/filters/proxy"
@@ -243,12 +249,15 @@ func c04Resolve(c *core.Ctx) *c04Info {
 					if types.Identical(fld.Type(), info.listType) {
 						lists = append(lists, fld)
 					}
-					if fld.Embedded() {
-						ft := fld.Type()
-						if p, ok := ft.(*types.Pointer); ok {
-							ft = p.Elem()
+					// the common part may be embedded or held in a named field (`base BaseLoadBalancer`)
+					ft := fld.Type()
+					if p, ok := ft.(*types.Pointer); ok {
+						ft = p.Elem()
+					}
+					if n, ok := ft.(*types.Named); ok && n.Obj().Pkg() != nil && strings.HasPrefix(n.Obj().Pkg().Path(), load.ModulePath) {
+						if _, isStruct := n.Underlying().(*types.Struct); isStruct && (fld.Embedded() || c04HasList(n, info.listType, 0)) {
+							walk(ft, depth+1)
 						}
-						walk(ft, depth+1)
 					}
 				}
 			}
@@ -273,9 +282,9 @@ func c04Resolve(c *core.Ctx) *c04Info {
 	}
 	npkg, nfd := c.Prog.FuncDecl(c04pkg, "", "NewLoadBalancer")
 	info.newLB, _ = npkg.TypesInfo.Defs[nfd.Name].(*types.Func)
-	cases, outside, sw := c04PolicyCases(c, npkg, nfd)
-	if sw == nil {
-		c.Errorf("anchor: NewLoadBalancer has no switch over the policy")
+	cases, outside, disp := c04PolicyCases(c, npkg, nfd)
+	if disp == nil {
+		c.Errorf("anchor: NewLoadBalancer has neither a switch over the policy nor a lookup in an immutable table of constructors")
 		return nil
 	}
 	info.cases, info.outside = cases, outside
@@ -326,6 +335,27 @@ func c04Resolve(c *core.Ctx) *c04Info {
 		return nil
 	}
 	return info
+}
+
+// c04HasList: struct type t contains (at any depth) a field of the list type.
+func c04HasList(t types.Type, list types.Type, depth int) bool {
+	st, ok := t.Underlying().(*types.Struct)
+	if !ok || depth > 3 {
+		return false
+	}
+	for i := 0; i < st.NumFields(); i++ {
+		ft := st.Field(i).Type()
+		if types.Identical(ft, list) {
+			return true
+		}
+		if p, ok := ft.(*types.Pointer); ok {
+			ft = p.Elem()
+		}
+		if _, isNamed := ft.(*types.Named); isNamed && c04HasList(ft, list, depth+1) {
+			return true
+		}
+	}
+	return false
 }
 
 // c04DeclOf finds the declaration of a function object.
@@ -381,7 +411,8 @@ func c04ReadOnlyCallee(o types.Object) bool {
 // are stripped before expressions are compared.
 type c04Facts struct {
 	f       *flow.Func
-	list    *types.Var // rendered as §list when selected (may be nil)
+	list    *types.Var   // rendered as §list when selected (may be nil)
+	listVar types.Object // a variable (helper parameter) that denotes the list
 	defs    map[types.Object]ast.Expr
 	unsafe  map[types.Object]bool // assigned more than once / address taken
 	byCanon map[string][]ast.Expr
@@ -401,6 +432,10 @@ func (q *c04Facts) withRecvList(fd *ast.FuncDecl) *c04Facts {
 	}
 	k := "len(§list(" + r + "))"
 	q.extra[k] = append(q.extra[k], "len("+r+"."+q.list.Name()+")")
+	// every spelling of the receiver's list in this function (`lb.base.Servers`, an alias …)
+	for _, x := range q.byCanon["§list("+r+")"] {
+		q.extra[k] = append(q.extra[k], "len("+q.f.Render(x)+")")
+	}
 	// Facts learnt inside an inlined same-package helper (`if lb.empty()`, `if none(lb.Servers)`)
 	// are phrased in the helper's vocabulary. Where every call of a helper in this function is
 	// given the receiver (resp. the receiver's list), the helper's receiver/parameter denotes the
@@ -459,8 +494,11 @@ func (q *c04Facts) withRecvList(fd *ast.FuncDecl) *c04Facts {
 	return q
 }
 
-func c04NewFacts(f *flow.Func, list *types.Var) *c04Facts {
-	q := &c04Facts{f: f, list: list, defs: map[types.Object]ast.Expr{}, unsafe: map[types.Object]bool{}, byCanon: map[string][]ast.Expr{}}
+func c04NewFacts(f *flow.Func, list *types.Var) *c04Facts { return c04NewFactsVar(f, list, nil) }
+
+// c04NewFactsVar: listVar (a parameter of a helper) denotes the list as well.
+func c04NewFactsVar(f *flow.Func, list *types.Var, listVar types.Object) *c04Facts {
+	q := &c04Facts{f: f, list: list, listVar: listVar, defs: map[types.Object]ast.Expr{}, unsafe: map[types.Object]bool{}, byCanon: map[string][]ast.Expr{}}
 	assigned := map[types.Object]int{}
 	note := func(e ast.Expr, rhs ast.Expr) {
 		id, ok := ast.Unparen(e).(*ast.Ident)
@@ -594,6 +632,9 @@ func (q *c04Facts) canon(e ast.Expr, depth int) string {
 	switch x := ast.Unparen(e).(type) {
 	case *ast.Ident:
 		o := c04ObjOf(q.f.Info, x)
+		if q.listVar != nil && o == q.listVar && !q.unsafe[o] {
+			return "§list(" + q.f.Render(x) + ")"
+		}
 		if v, ok := o.(*types.Var); ok && !q.unsafe[v] {
 			if d, ok := q.defs[v]; ok && q.stable(d, 0) {
 				return q.canon(d, depth+1)
@@ -621,8 +662,12 @@ func (q *c04Facts) canon(e ast.Expr, depth int) string {
 func (q *c04Facts) canonRoot(e ast.Expr, depth int) string {
 	if sel, ok := ast.Unparen(e).(*ast.SelectorExpr); ok {
 		if s := q.f.Info.Selections[sel]; s != nil && s.Kind() == types.FieldVal {
-			if v, ok := s.Obj().(*types.Var); ok && v.Embedded() {
-				return q.canonRoot(sel.X, depth+1)
+			// embedded hops and named struct fields on the way to the list (`lb.base.Servers`) alike:
+			// the list is identified by the object it belongs to
+			if v, ok := s.Obj().(*types.Var); ok {
+				if _, isStruct := c04Deref(v.Type()).Underlying().(*types.Struct); isStruct || v.Embedded() {
+					return q.canonRoot(sel.X, depth+1)
+				}
 			}
 		}
 	}
@@ -1148,6 +1193,52 @@ func c04NilGuardSite(c *core.Ctx, info *c04Info, s c04Site, cons string) (escape
 		}
 		return false
 	}
+	// `if noServer(svr)` with `func noServer(s *Server) bool { return s == nil }`: the argument of a
+	// same-package predicate that only compares its parameter with nil is not a use; the predicate is
+	// interpreted in place so that its verdict is understood
+	nilPredicates := map[*types.Func]bool{}
+	isNilPredicateArg := func(id *ast.Ident) bool {
+		call, ok := pm[id].(*ast.CallExpr)
+		if !ok {
+			return false
+		}
+		fo, _ := f.Callee(call).(*types.Func)
+		if fo == nil || fo.Pkg() != f.Pkg.Types {
+			return false
+		}
+		hd := declOf(f.Pkg, fo)
+		sig := fo.Type().(*types.Signature)
+		if hd == nil || sig.Results().Len() != 1 || !types.Identical(sig.Results().At(0).Type(), types.Typ[types.Bool]) {
+			return false
+		}
+		idx := -1
+		for i, a := range call.Args {
+			if a == ast.Expr(id) {
+				idx = i
+			}
+		}
+		if idx < 0 || idx >= sig.Params().Len() {
+			return false
+		}
+		param := sig.Params().At(idx)
+		onlyNilTests := true
+		hpm := parentMap(hd.Body)
+		ast.Inspect(hd.Body, func(n ast.Node) bool {
+			x, ok := n.(*ast.Ident)
+			if !ok || f.Info.Uses[x] != types.Object(param) {
+				return true
+			}
+			b, isBin := hpm[x].(*ast.BinaryExpr)
+			if !isBin || (b.Op != token.EQL && b.Op != token.NEQ) || !(f.Info.Types[b.X].IsNil() || f.Info.Types[b.Y].IsNil()) {
+				onlyNilTests = false
+			}
+			return true
+		})
+		if onlyNilTests {
+			nilPredicates[fo] = true
+		}
+		return onlyNilTests
+	}
 	// uses of v inside node top that need v != nil (an assignment *to* v is not a use)
 	var collect func(n, top ast.Node, out *[]*ast.Ident)
 	collect = func(n, top ast.Node, out *[]*ast.Ident) {
@@ -1163,7 +1254,7 @@ func c04NilGuardSite(c *core.Ctx, info *c04Info, s c04Site, cons string) (escape
 				}
 				return false
 			}
-			if id, ok := x.(*ast.Ident); ok && f.Info.Uses[id] == v && !isNilCmp(id) && !shortGuarded(id, top) && !readOnlyArg(id, top) && !isReturned(id) {
+			if id, ok := x.(*ast.Ident); ok && f.Info.Uses[id] == v && !isNilCmp(id) && !shortGuarded(id, top) && !readOnlyArg(id, top) && !isReturned(id) && !isNilPredicateArg(id) {
 				*out = append(*out, id)
 			}
 			return true
@@ -1182,16 +1273,23 @@ func c04NilGuardSite(c *core.Ctx, info *c04Info, s c04Site, cons string) (escape
 	var bad *badUse
 	uses := 0
 	sends := 0
-	var inline func(*ast.CallExpr, *types.Func) *flow.Func
-	if s.wrapper != nil {
-		// interpret the wrapper (only) in place, so that `svr, ok := sp.pick(req); if !ok {…}` is understood
-		all := inlineSamePkg(f)
-		inline = func(call *ast.CallExpr, callee *types.Func) *flow.Func {
-			if callee != s.wrapper {
-				return nil
-			}
-			return all(call, callee)
+	// interpret in place: the wrapper (so that `svr, ok := sp.pick(req); if !ok {…}` is understood)
+	// and nil predicates applied to the server
+	ast.Inspect(f.Body, func(n ast.Node) bool {
+		if id, ok := n.(*ast.Ident); ok && f.Info.Uses[id] == v {
+			isNilPredicateArg(id)
 		}
+		return true
+	})
+	all := inlineSamePkg(f)
+	inline := func(call *ast.CallExpr, callee *types.Func) *flow.Func {
+		if callee != s.wrapper && !nilPredicates[callee] {
+			return nil
+		}
+		if callee == nil {
+			return nil
+		}
+		return all(call, callee)
 	}
 	res := analyze(c, f, flow.Config{
 		Inline: inline,
@@ -1557,15 +1655,15 @@ func c04Bounds(c *core.Ctx, info *c04Info) {
 					}
 					// the bound is a parameter of an unexported function: decide at its call sites
 					if ui == 0 {
-						if idx := c04ParamIndex(f, fd, q, b.bound); idx >= 0 && !fd.Name.IsExported() {
-							n, badCall, badSt := c04ArgPositiveAtCalls(c, info, pkg, c04FuncObj(pkg, fd), idx)
+						if idx, lenOf := c04ParamIndex(f, fd, q, b.bound); idx >= 0 && !fd.Name.IsExported() {
+							n, badCall, badSt := c04ArgPositiveAtCalls(c, info, pkg, c04FuncObj(pkg, fd), idx, lenOf)
 							if n > 0 && badCall == nil {
 								c.Discharge("R-C04-6", cons, pos(c, b.site), sprintf("%s is a parameter of %s; the argument is known positive at all %d call sites", types.ExprString(b.bound), fd.Name.Name, n))
 								continue
 							}
 							if badCall != nil {
 								c.Violate("R-C04-6", cons, pos(c, badCall),
-									sprintf("%s is a parameter of %s and the argument `%s` passed here is not known to be positive: %s", types.ExprString(b.bound), fd.Name.Name, types.ExprString(badCall.Args[idx]), map[bool]string{true: "rand.Intn panics for an argument <= 0", false: "integer division by zero"}[strings.Contains(b.role, "bound")]), witness(badSt)...)
+									sprintf("%s depends on a parameter of %s and the argument `%s` passed here is not known to be positive / non-empty: %s", types.ExprString(b.bound), fd.Name.Name, types.ExprString(badCall.Args[idx]), map[bool]string{true: "rand.Intn panics for an argument <= 0", false: "integer division by zero"}[strings.Contains(b.role, "bound")]), witness(badSt)...)
 								continue
 							}
 						}
@@ -1597,8 +1695,20 @@ func c04Bounds(c *core.Ctx, info *c04Info) {
 
 // c04ParamIndex: e (through conversions and stable aliases) is a parameter of fd that is never
 // assigned; returns its position in the call's argument list, or -1.
-func c04ParamIndex(f *flow.Func, fd *ast.FuncDecl, q *c04Facts, e ast.Expr) int {
-	id, ok := q.resolve(e).(*ast.Ident)
+func c04ParamIndex(f *flow.Func, fd *ast.FuncDecl, q *c04Facts, e ast.Expr) (index int, lenOf bool) {
+	r := q.resolve(e)
+	// len(p) with p a slice parameter
+	if call, ok := r.(*ast.CallExpr); ok && len(call.Args) == 1 {
+		if b, isB := f.Callee(call).(*types.Builtin); isB && b.Name() == "len" {
+			r, lenOf = q.resolve(call.Args[0]), true
+		}
+	}
+	i := c04ParamIndexOf(f, fd, q, r)
+	return i, lenOf
+}
+
+func c04ParamIndexOf(f *flow.Func, fd *ast.FuncDecl, q *c04Facts, r ast.Expr) int {
+	id, ok := r.(*ast.Ident)
 	if !ok {
 		return -1
 	}
@@ -1626,7 +1736,7 @@ func c04ParamIndex(f *flow.Func, fd *ast.FuncDecl, q *c04Facts, e ast.Expr) int 
 }
 
 // c04ArgPositiveAtCalls checks argument idx at every call of fo in its package.
-func c04ArgPositiveAtCalls(c *core.Ctx, info *c04Info, pkg *packages.Package, fo *types.Func, idx int) (n int, badCall *ast.CallExpr, badSt *flow.State) {
+func c04ArgPositiveAtCalls(c *core.Ctx, info *c04Info, pkg *packages.Package, fo *types.Func, idx int, lenOf bool) (n int, badCall *ast.CallExpr, badSt *flow.State) {
 	if fo == nil {
 		return 0, nil, nil
 	}
@@ -1655,7 +1765,13 @@ func c04ArgPositiveAtCalls(c *core.Ctx, info *c04Info, pkg *packages.Package, fo
 			res := c04VisitSites(c, g, sites, flow.Config{NoHavoc: true, Inline: inlineSamePkg(g, fo)}, func(s, top ast.Node, st *flow.State) {
 				visited[s]++
 				call := s.(*ast.CallExpr)
-				if badCall == nil && !q.positive(st, call.Args[idx]) {
+				ok := false
+				if lenOf {
+					ok = q.positiveK(st, "len("+q.canon(call.Args[idx], 0)+")")
+				} else {
+					ok = q.positive(st, call.Args[idx])
+				}
+				if badCall == nil && !ok {
 					badCall, badSt = call, st
 				}
 			})
